@@ -3,7 +3,7 @@
 # harness against /repo's working tree.  Not registered in MANIFEST.json (the manifest lists the given properties only).
 cd "$(dirname "$0")/.." || exit 2
 rc=0
-for id in X01 X02 X03 X04 X05 X06 X07 X08; do
+for id in X01 X02 X03 X04 X05 X06 X07 X08 X09; do
   [ -f harness/$(echo $id | tr A-Z a-z).py ] || continue
   ./check $id "$@" | tail -3
   [ "${PIPESTATUS[0]}" = 0 ] || rc=1
